@@ -454,7 +454,7 @@ func init() {
 			if tier == "thorough" {
 				return 1500
 			}
-			return 200
+			return 400
 		},
 		RunUnit: func(c *explore.Ctx) {
 			arg := c.Spec.Unit.Arg
